@@ -9,6 +9,21 @@ from .c01 import APPEND, event_aggregate_for, ok_edge_of_try
 STORE = 'ripd::continuities::ContinuityStore::'
 
 
+KEEP = r'::(create_continuity|replay_events|load_next_seq_for|append_\w+|ensure_default|get|new|workspace_root)$'
+
+
+def lineage_fn(P, name, note=None):
+    """branch / handoff as the rules read them: private store helpers they call (a cut-point
+    resolution extracted into its own method, ...) are spliced in at the call site."""
+    key = '_c10_' + name
+    if not hasattr(P, key):
+        from ..inline import inline_calls
+        base = P.fn(STORE + name)
+        g = inline_calls(P, base, lambda body, callee: callee.startswith('ripd::continuities::') and not re.search(KEEP, callee) and len(body.blocks) < 600, depth=1, note=note)
+        setattr(P, key, g)
+    return getattr(P, key)
+
+
 def run(ctx):
     P = ctx.prog
     E = Effects(P)
@@ -29,8 +44,8 @@ def run(ctx):
         raise CheckError('C10.2: the two appends of create_continuity are not ordered by dominance')
     a0 = first[0]
     a1 = [x for x in aps if x is not a0][0]
-    _, agg0 = event_aggregate_for(c, a0)
-    _, agg1 = event_aggregate_for(c, a1)
+    _, agg0 = event_aggregate_for(c, a0, P)
+    _, agg1 = event_aggregate_for(c, a1, P)
     if agg0 is None or agg1 is None:
         raise CheckError('C10.2: frame aggregates of create_continuity not found')
     k0 = op_const(agg0['a'][agg0['fields'].index('seq')])
@@ -54,7 +69,7 @@ def run(ctx):
     ctx.ob('C10.1', c, 'both-frames-on-child', bool(same), 'both frames carry the same (new) stream id', line=a1.line)
 
     for name, parent_param, lineage in (('branch', 'parent_thread_id', 'ContinuityBranched'), ('handoff', 'from_thread_id', 'ContinuityHandoffCreated')):
-        f = P.fn(STORE + name)
+        f = lineage_fn(P, name, ctx.note)
         ctx.touch(f)
         # the source thread id: by name, otherwise the first parameter after self (a &str / String)
         pidx = [i for i in range(1, f.argc + 1) if f.lname(i) == parent_param]
@@ -142,7 +157,7 @@ def c105(ctx):
     adt = P.adts.get('rip_kernel::EventKind')
     idx = {v['name']: i for i, v in enumerate(adt['variants'])}
     for name in ('branch', 'handoff'):
-        f = P.fn(STORE + name)
+        f = lineage_fn(P, name, ctx.note)
         loops = []
         for h, body in f.loops().items():
             # the loop that inspects ContinuityRunEnded frames
@@ -181,7 +196,10 @@ def c105(ctx):
         return src[0] == 'local' and any(isinstance(pp, dict) and pp.get('n') == 'seq' and pp.get('o') == 'rip_kernel::Event' for pp in src[2])
     ncmp = 0
     for name in ('branch', 'handoff'):
-        for g in P.family(STORE + name):
+        fam_ = list(P.family(STORE + name))
+        for hb in sorted(getattr(lineage_fn(P, name), 'inlined_bodies', ())):
+            fam_ += [x for x in P.family(hb) if x not in fam_]
+        for g in fam_:
             for bi in g.reachable():
                 for st in g.blocks[bi]['s']:
                     rv = st.get('rv')
